@@ -2,4 +2,4 @@
 From Coq Require Import Extraction ExtrOcamlBasic.
 From ZV Require Import Base.Bytes Dl.DlWrite Dl.Multipart Dl.LiteralMatcher Dl.Session Io.Faults Io.DlFaults.
 Extraction Language OCaml.
-Extraction "Extract/m_c05.ml" dlw mpx get_boundary header_cb write_cb feed_frags pat_next pat_end pat_hdr escape_ere lit_exec lit_comp dl_reset missing_ridx run_transfer rescan write_cb_F.
+Extraction "Extract/m_c05.ml" dlw mpx get_boundary header_cb write_cb feed_frags pat_next pat_end pat_hdr escape_ere lit_exec lit_comp dl_reset missing_ridx run_transfer rescan write_cb_F clear_error.
